@@ -8,7 +8,9 @@ Clauses (one mechanism-key family each):
   recovery     (only items with recover=True: identifiable family, noise-free data, class-default limits, default
                method="auto", weight="auto"): per fit pseudo_chisqr <= CHI_TOL, and when pseudo_chisqr <= CONV_CHI every
                generating value is reproduced within PAR_TOL (relative), modulo the order of interchangeable parallel
-               blocks of identical shape; per run the median chi-squared / parameter error are <= MED_CHI_TOL /
+               blocks of identical shape (items whose generating values cannot be represented to RES_TOL inside the class-
+               default limit box are judged under the separate key C12/recovery-limit-range-resolution and are left
+               out of the run-level statistics); per run the median chi-squared / parameter error are <= MED_CHI_TOL /
                MED_PAR_TOL and >= MIN_CONVERGED of the fits meet the design's 1e-8 / 1e-3 (see the tolerance block).
   bounds       every value of result.circuit lies within [lower, upper] of the same parameter of the circuit that was
                passed in (exact comparison).
@@ -76,6 +78,10 @@ MED_CHI_TOL = 1e-9    # run level: median chi^2 over all recovery fits (observed
 MED_PAR_TOL = 1e-4    # run level: median relative parameter error (observed 3e-7..1e-6)
 FAM_MED_CHI_TOL = 1e-8  # per family median when >= 20 fits of that family were checked
 CONSTR_TOL = 1e-9
+RES_TOL = 1e-3        # recovery items in which some free generating value is coarser than this (relative spacing of lmfit's
+                      # bounded-parameter transformation inside the class-default limit box) form the 'limit-resolution' regime:
+                      # their failures carry the separate key C12/recovery-limit-range-resolution and they are left out of
+                      # the run-level statistics
 
 METHODS = ["leastsq", "least_squares", "nelder", "lbfgsb", "powell", "cg", "bfgs", "tnc", "slsqp"]
 WEIGHTS = ["unity", "modulus", "proportional", "boukamp"]
@@ -549,26 +555,37 @@ def check_fit(item):
                 bad(f"C12/constraint-broken:{item['ckind']}", f"{name} = {expr}: returned {lhs!r} but expression gives {rhs!r} (rel. {dev:.3g})")
     # ---- recovery
     if item["recover"]:
+        # regime: can the generating values be represented inside their limit boxes at all?  lmfit maps a parameter with two
+        # finite limits to lower + (sin(x)+1)*(upper-lower)/2, whose values are spaced (upper-lower)*2**-54 apart near the
+        # lower limit; with the class defaults (C, L: upper 1e3; Q.Y: upper 1e6) that is 5.6e-14 / 5.6e-11.
+        res = 0.0
+        for (sym, vals, lo, hi, fx, ids), leaf in zip(in_state, fm.leaves(item["truth"])):
+            for name, p in leaf[2].items():
+                if math.isfinite(lo[name]) and math.isfinite(hi[name]) and not fx[name]:
+                    res = max(res, (hi[name] - lo[name]) * 2.0**-54 / abs(float(p[0])))
+        high_z = res > RES_TOL
+        tag = "limit-resolution" if high_z else item["shape"]
+        worst("recovery_value_resolution" + (":limit-resolution" if high_z else ""), res)
         bump("recovery_checked")
-        bump("recovery:" + item["shape"])
+        bump("recovery:" + tag)
         bump("winner:" + result.method + "/" + result.weight)
         chi = float(result.pseudo_chisqr)
-        worst("recovery_pseudo_chisqr:" + item["shape"], chi)
+        worst("recovery_pseudo_chisqr:" + tag, chi)
         fitted = [float(v) for el in out_elements for v in el.get_values().values()]
         best = math.inf
         for perm in _blocks_permutations(item["truth"]):
             tv = [float(p[0]) for leaf in fm.leaves(perm) for p in leaf[2].values()]
             err = max(abs(a - b) / abs(a) for a, b in zip(tv, fitted))
             best = min(best, err)
-        worst("recovery_param_rel_err:" + item["shape"], best)
+        worst("recovery_param_rel_err:" + tag, best)
         if not chi <= CHI_TOL:
-            bad(f"C12/recovery-chisqr:{item['shape']}", f"pseudo chi-squared {chi:.3g} > {CHI_TOL:g} (winner {result.method}/{result.weight}, worst parameter error {best:.3g})")
+            bad("C12/recovery-limit-range-resolution" if high_z else f"C12/recovery-chisqr:{item['shape']}", f"pseudo chi-squared {chi:.3g} > {CHI_TOL:g} (winner {result.method}/{result.weight}, worst parameter error {best:.3g})")
         if chi <= CONV_CHI and not best <= PAR_TOL:
             tv = [float(p[0]) for leaf in fm.leaves(item["truth"]) for p in leaf[2].values()]
-            bad(f"C12/recovery-params:{item['shape']}", f"generating values {tv} returned as {fitted} (rel. error {best:.3g}, chi-squared {chi:.3g}, winner {result.method}/{result.weight})")
+            bad("C12/recovery-limit-range-resolution" if high_z else f"C12/recovery-params:{item['shape']}", f"generating values {tv} returned as {fitted} (rel. error {best:.3g}, chi-squared {chi:.3g}, winner {result.method}/{result.weight})")
     fixed_mask = tuple(bool(x) for s in in_state for x in s[4].values())
     keys.append((item["shape"], cell, fixed_mask, tuple(item.get("box_kinds") or ()), item.get("ckind", ""), tuple(item.get("labels") or ()), bool(item["recover"])))
-    agg = [item["shape"], chi, best] if item["recover"] else None
+    agg = [tag, chi, best] if item["recover"] else None
     return {"evals": 1, "keys": keys, "viol": viol, "stats": stats, "maxobs": maxobs, "agg": agg}
 
 
@@ -658,7 +675,12 @@ def finalize(agg):
     for name in ("params_fixed_checked", "params_at_bound", "constraints_checked", "table_values_checked", "untouched_checked"):
         if st.get(name, 0) == 0:
             inc.append(f"{name} == 0: the clause was never exercised")
-    rec = [r for a in agg["aggs"] for r in (a or [])]
+    rec_all = [r for a in agg["aggs"] for r in (a or [])]
+    rec = [r for r in rec_all if r[0] != "limit-resolution"]
+    hz = [r for r in rec_all if r[0] == "limit-resolution"]
+    if hz:
+        info["recovery_limit_resolution"] = {"n": len(hz), "max_chisqr": max(r[1] for r in hz), "above_CHI_TOL": sum(1 for r in hz if not r[1] <= CHI_TOL),
+                                           "fraction_converged_to_design_tolerance": round(sum(1 for r in hz if r[1] <= CONV_CHI and r[2] <= DESIGN_PAR) / len(hz), 3)}
     viol = []
     if rec:
         chis = sorted(r[1] for r in rec)
